@@ -159,9 +159,12 @@ def _rx_subscriber(pkg):
         E.call(E.getattr(sub, 'on_subscribe'), [subscription])
         if cls == 'RxSubscriberFromObserver':
             E.prove('from_observer:on_subscribe_requests_the_limit', [(c[1], c[2]) for c in log.of(subscription)] == [('request', (limit,))])
+        cnt = state_attr(sub, '_received_messages', 0)      # the window counter, by role (robust against renaming)
+        E.prove('subscriber:starts_with_an_empty_window_and_not_done', sub.attrs[cnt] == 0 and (cls != 'RxSubscriber' or (
+            sub.attrs['done'].attrs['flag'] is False and sub.attrs['get_next_n'].attrs['flag'] is False)))
         got = E.fresh_int('received_in_window', 0)
         E.assume(I(got) < I(limit))
-        sub.attrs[state_attr(sub, '_received_messages', 0)] = got      # the window counter, by role (robust against renaming)
+        sub.attrs[cnt] = got
         n0 = len(log.calls)
         what = E.path.choice(3, 'signal')
         v = SOpaque('payload', 'element')
@@ -173,6 +176,10 @@ def _rx_subscriber(pkg):
             E.prove('subscriber:element_forwarded_once_then_completion_if_flagged', sig == ([('on_next', (v,)), ('on_completed', ())] if comp else [('on_next', (v,))]))
             window_full = I(got) + 1 == I(limit)
             reqs = [(c[1], c[2]) for c in log.calls[n0:] if c[0] is subscription]
+            if not comp:
+                # the window invariant 0 <= counter < limit is re-established: the pre-state above is every reachable state
+                E.prove('subscriber:window_counter_advances_by_one_and_restarts_when_full',
+                        I(sub.attrs[cnt]) == z3.If(window_full, 0, I(got) + 1))
             if cls == 'RxSubscriber':
                 flag = sub.attrs['get_next_n'].attrs['flag']
                 if comp:
@@ -191,11 +198,17 @@ def _rx_subscriber(pkg):
             E.call(E.getattr(sub, 'on_complete'), [])
             E.cover('on_complete')
             E.prove('subscriber:completion_preserved', [(c[1], c[2]) for c in log.calls[n0:] if c[0] is observer] == [('on_completed', ())])
+            if cls == 'RxSubscriber':
+                E.prove('subscriber:stream_marked_done_after_completion[the subscription task ends, a later dispose cancels nothing]',
+                        sub.attrs['done'].attrs['flag'] is True)
         else:
             ex = E.make_exc('ValueError', 'boom')
             E.call(E.getattr(sub, 'on_error'), [ex])
             E.cover('on_error')
             E.prove('subscriber:error_preserved', [(c[1], c[2]) for c in log.calls[n0:] if c[0] is observer] == [('on_error', (ex,))])
+            if cls == 'RxSubscriber':
+                E.prove('subscriber:stream_marked_done_after_error[the subscription task ends, a later dispose cancels nothing]',
+                        sub.attrs['done'].attrs['flag'] is True)
     return run
 
 
@@ -217,6 +230,21 @@ def _dispose(pkg):
         E.cover('subscribed')
         E.prove('from_publisher:two_tasks_started', len(tasks) == 2 and sorted(c.func.name for t, c in tasks) == ['_aio_sub', '_trigger_next_request_n'])
         sub_task = [tc for tc in tasks if tc[1].func.name == '_aio_sub'][0]
+        trg_task = [tc for tc in tasks if tc[1].func.name == '_trigger_next_request_n'][0]
+        targs = list(trg_task[1].env.vars.values())            # by value, not by position or name
+        ssubs = [v for v in sub_task[1].env.vars.values() if isinstance(v, SObj) and v.cls.name == 'RxSubscriber']
+        E.prove('from_publisher:the_request_task_serves_the_same_subscriber_with_the_request_limit',
+                len(ssubs) == 1 and any(v is ssubs[0] for v in targs) and any(v is limit for v in targs)
+                and ssubs[0].attrs['limit_rate'] is limit)
+        # the request task, run to its first suspension: it parks on the subscriber's wake-up event without having requested
+        # anything (and without failing: it was given the subscriber and the limit the right way round)
+        E.suspend_hook = lambda E_, what: E_.throw('CancelledError')
+        try:
+            E.await_value(trg_task[1])
+            E.prove('from_publisher:the_request_task_parks_until_woken', not log.of(subscription, 'request'))
+        except PyExc as e:
+            E.prove('from_publisher:the_request_task_parks_until_woken[it failed with %s]' % e.value.cls.name, False)
+            return
         if E.path.choice(2, 'disposed-before-the-tasks-ran') == 1:
             # disposed in the same event-loop iteration as subscribed: asyncio never runs the body of a task that is
             # cancelled before its first step.  Whatever was started synchronously has to be undone synchronously.
@@ -254,6 +282,52 @@ def _dispose(pkg):
     return run
 
 
+def _subscribe_failure(pkg):
+    """_aio_sub when subscribing to the core publisher fails: the error is preserved - it reaches the observer (scheduled on
+    the loop), exactly once, as the exception that was raised."""
+    P = PKGS[pkg]
+    FP = P['dir'] + 'from_rsocket_publisher.py::'
+
+    def run(E):
+        E.import_module('asyncio')
+        observer = SOpaque('observer', 'observer')
+        publisher = SOpaque('publisher', 'publisher')
+        limit = E.fresh_int('limit_rate', 1, 0x7FFFFFFF)
+        tasks = []
+        E.create_task_hook = lambda E_, t, coro: tasks.append((t, coro))
+        log = OpaqueLog(E, may_raise=lambda o, m: o is publisher and m == 'subscribe')
+        ob = E.call(E.lookup(FP + 'from_rsocket_publisher'), [publisher, limit])
+        E.call(E.getattr(ob, 'subscribe'), [observer])
+        sub_task = [tc for tc in tasks if tc[1].func.name == '_aio_sub'][0]
+        failed = {}
+
+        def on_suspend(E_, what):
+            # subscribe() returned normally and the stream is running: not the case of this contract
+            failed['no'] = True
+            what[1].attrs['flag'] = True
+            return None
+        E.suspend_hook = on_suspend
+        try:
+            E.await_value(sub_task[1])
+        except PyExc as e:
+            E.prove('subscribe_failure:contained_in_the_subscription_task', False)
+            return
+        if failed:
+            return
+        E.cover('subscribe-raised')
+        E.prove('subscribe_failure:observer_not_called_synchronously_from_the_task', not log.of(observer))
+        sched = E.path.ghost.get('call_soon', [])
+        E.prove('subscribe_failure:one_callback_scheduled', len(sched) == 1)
+        if len(sched) == 1:
+            cb, args = sched[0]
+            E.call(cb, list(args))
+            sig = [(c[1], c[2]) for c in log.of(observer)]
+            E.prove('subscribe_failure:error_reaches_the_observer_exactly_once_as_raised',
+                    len(sig) == 1 and sig[0][0] == 'on_error' and len(sig[0][1]) == 1 and isinstance(sig[0][1][0], SObj)
+                    and sig[0][1][0].attrs.get('from_opaque') == (publisher.ident, 'subscribe'))
+    return run
+
+
 def _trigger(pkg):
     P = PKGS[pkg]
     FP = P['dir'] + 'from_rsocket_publisher.py::'
@@ -274,15 +348,25 @@ def _trigger(pkg):
             E.cover('iteration')
             new = [(c[1], c[2]) for c in log.calls[st['n0']:]]
             return [('one wake-up => exactly one request of exactly the limit, flag cleared', new == [('request', (limit,))]
-                     and sub.attrs['get_next_n'].attrs['flag'] is False)]
+                     and sub.attrs['get_next_n'].attrs['flag'] is False),
+                    ('a request is made only after the subscriber signalled a full window (never spontaneously)', st.get('woken') is True)]
 
         def havoc(ctx):
             st['n0'] = len(log.calls)
+            st['woken'] = False
         spec = LoopSpec(inv, None, havoc=havoc)
         spec.nonterminating = True
         E.loop_specs[(TR, 0)] = spec
-        E.suspend_hook = lambda E_, what: what[1].attrs.__setitem__('flag', True) if what[0] == 'event.wait' else None
+
+        def on_suspend(E_, what):
+            if what[0] == 'event.wait' and what[1] is sub.attrs['get_next_n']:
+                st['woken'] = True                      # RxSubscriber.on_next found the window full
+                what[1].attrs['flag'] = True
+            return None
+        E.suspend_hook = on_suspend
         E.await_value(E.call(E.lookup(TR), [sub, limit]))
+        # the loop contract above ends every path that iterates; getting here means the task returned on its own
+        E.prove('trigger:serves_wake-ups_until_it_is_cancelled[never returns on its own]', False)
     return run
 
 
@@ -329,13 +413,70 @@ def _publisher(pkg):
     return run
 
 
+def _plain_publisher(pkg):
+    """observable_to_publisher(plain observable) -> BackPressurePublisher: subscribing wires the buffering bridge
+    (observable_to_async_event_generator, through its contract c20.*.event_generator) to a sender task (contract
+    c20.*.aio_next) that is driven by the requester's credit."""
+    P = PKGS[pkg]
+    BP = P['dir'] + 'back_pressure_publisher.py::'
+
+    def run(E):
+        E.import_module('asyncio')
+        range_stub(E)
+        source = SObj(M._builtin_class('rx.Observable'), {'tag': 'plain'})
+        subscriber = SOpaque('subscriber', 'core-subscriber')
+        bridge = SOpaque('iterator', 'notification-generator')
+        bridged = []
+        E.stubs[BP + 'observable_to_async_event_generator'] = lambda E_, f, a, k: (bridged.append(a[0]), bridge)[1]
+        tasks = []
+        E.create_task_hook = lambda E_, t, coro: tasks.append((t, coro))
+        log = OpaqueLog(E, returns={'__aiter__': lambda E_, o, m, a, k: o,
+                                    '__anext__': lambda E_, o, m, a, k: aio.Awaitable('anext', o)})
+        pub = E.call(E.lookup(BP + 'observable_to_publisher'), [source])
+        E.prove('plain:wrapped_in_a_BackPressurePublisher', isinstance(pub, SObj) and pub.cls.name == 'BackPressurePublisher')
+        E.call(E.getattr(pub, 'subscribe'), [subscriber])
+        E.cover('subscribed')
+        E.prove('plain:on_subscribe_with_the_publisher_as_subscription', [(c[1], c[2]) for c in log.of(subscriber)] == [('on_subscribe', (pub,))])
+        E.prove('plain:one_sender_task_started', len(tasks) == 1 and tasks[0][1].func.name == '_aio_next')
+        E.prove('plain:one_bridge_over_exactly_the_wrapped_observable', len(bridged) == 1 and bridged[0] is source)
+        E.prove('plain:nothing_is_pulled_from_the_bridge_before_credit_arrives', not log.of(bridge, '__anext__'))
+        n1 = E.fresh_int('n1', 1, 0x7FFFFFFF)
+        E.call(E.getattr(pub, 'request'), [n1])
+        seen = []
+
+        def on_suspend(E_, what):
+            seen.append(what[0] if what[0] != 'queue.get' else ('queue.get', list(what[1].attrs['_queue'])))
+            E_.throw('CancelledError')
+        E.suspend_hook = on_suspend
+        inner = LoopSpec(lambda ctx: [], None)      # the credit loop itself is under contract in c20.*.aio_next
+        inner.nonterminating = True
+        E.loop_specs[(BP + 'from_async_event_iterator.<locals>.on_subscribe.<locals>._aio_next', 1)] = inner
+        try:
+            E.await_value(tasks[0][1])
+            E.prove('plain:with_credit_the_sender_pulls_from_the_bridge', False)
+        except PyExc as e:
+            E.prove('plain:with_credit_the_sender_pulls_from_the_bridge[the credit reached its queue; it now waits for the first notification]',
+                    e.value.cls.name == 'CancelledError' and (
+                        (seen == ['anext'] and len(log.of(bridge, '__anext__')) == 1)       # inside the credit loop (cut: any iteration)
+                        or seen == [('queue.get', [])]))                                  # after it: the credit was taken, waits for more
+        E.prove('plain:nothing_signalled_to_the_subscriber_yet', [(c[1]) for c in log.of(subscriber)] == ['on_subscribe'])
+    return run
+
+
 from pyvc.engine import Builtin  # noqa: E402
 
 
-def _aio_next(pkg):
+def _aio_next(pkg, fn='from_async_event_iterator'):
+    """The sender task of a back-pressure-aware observable (both variants: an iterator of notifications, a plain async
+    generator).  Loop contract of the credit loop (`async for i in async_range(next_n)`):
+       * one item is taken from the source per unit of credit, and an element is forwarded exactly once;
+       * the loop goes round again ONLY after an element - a terminal item ends the task;
+    and at the end of the task: the terminal item was translated into exactly its own terminal signal (completion stays
+    completion, an error stays that error, a failing source is an error), with nothing after it."""
     P = PKGS[pkg]
     BP = P['dir'] + 'back_pressure_publisher.py::'
-    FN = BP + 'from_async_event_iterator.<locals>.on_subscribe.<locals>._aio_next'
+    FN = BP + fn + '.<locals>.on_subscribe.<locals>._aio_next'
+    notif = fn == 'from_async_event_iterator'
 
     def run(E):
         E.import_module('asyncio')
@@ -344,35 +485,50 @@ def _aio_next(pkg):
         backpressure = E.call(rx.getattr(E, 'Subject'), [])
         observer = SOpaque('observer', 'observer')
         it = SOpaque('iterator', 'event-iterator')
-        NT = M._builtin_class('rx.OnNext')
-        events = []
+        events = []          # (kind, payload)   kind: N element, C completed, E error notification, X source raised
 
         def anext(E_, o, m, a, k):
-            kind = E_.path.choice(3, 'event-kind')
-            ev = [SObj(M._builtin_class('rx.OnNext'), {'value': SOpaque('payload', 'v%d' % len(events)), 'kind': 'N'}),
-                  SObj(M._builtin_class('rx.OnCompleted'), {'kind': 'C'}),
-                  SObj(M._builtin_class('rx.OnError'), {'exception': E_.make_exc('ValueError', 'x'), 'kind': 'E'})][kind]
-            events.append(ev)
-            return aio.Awaitable('ready', result=ev)
+            kind = 'NCEX'[E_.path.choice(4, 'item-kind')]
+            if kind == 'N':
+                v = SOpaque('payload', 'v%d' % len(events))
+                events.append(('N', v))
+                return aio.Awaitable('ready', result=SObj(M._builtin_class('rx.OnNext'), {'value': v, 'kind': 'N'}) if notif else v)
+            if kind == 'X' or (kind == 'E' and not notif):
+                ex = E_.make_exc('ValueError', 'source failed')
+                events.append(('X', ex))
+                raise PyExc(ex)
+            if kind == 'C':
+                events.append(('C', None))
+                if notif:
+                    return aio.Awaitable('ready', result=SObj(M._builtin_class('rx.OnCompleted'), {'kind': 'C'}))
+                raise PyExc(E_.make_exc('StopAsyncIteration'))
+            ex = E_.make_exc('ValueError', 'x')
+            events.append(('E', ex))
+            return aio.Awaitable('ready', result=SObj(M._builtin_class('rx.OnError'), {'exception': ex, 'kind': 'E'}))
         log = OpaqueLog(E, returns={'__anext__': anext})
         tasks = []
         E.create_task_hook = lambda E_, t, coro: tasks.append((t, coro))
-        ob = E.call(E.lookup(BP + 'from_async_event_iterator'), [it, backpressure])
-        E.call(E.getattr(ob, 'subscribe'), [observer])
+        ob = E.call(E.lookup(BP + fn), [it, backpressure])
+        disp = E.call(E.getattr(ob, 'subscribe'), [observer])
         E.prove('aio_next:sender_task_started_once', len(tasks) == 1 and tasks[0][1].func.name == '_aio_next')
+        E.prove('aio_next:subscribing_returns_the_disposable_of_the_credit_subscription', disp is not None)
         n = E.fresh_int('credit', 1, 0x7FFFFFFF)
         E.call(E.getattr(backpressure, 'on_next'), [n])
         st = {}
+
+        def sigs():
+            return [(c[1], c[2]) for c in log.calls[st['c0']:] if c[0] is observer]
 
         def inv(ctx):
             if ctx.phase != 'step':
                 return []
             E.cover('iteration')
             new_ev = events[st['e0']:]
-            new_sig = [(c[1], c[2]) for c in log.calls[st['c0']:] if c[0] is observer]
-            out = [('one event taken per unit of credit', len(new_ev) == 1)]
-            if len(new_ev) == 1 and new_ev[0].attrs['kind'] == 'N':
-                out.append(('element forwarded exactly once', new_sig == [('on_next', (new_ev[0].attrs['value'],))]))
+            out = [('one item taken per unit of credit', len(new_ev) == 1)]
+            if len(new_ev) == 1:
+                out.append(('the credit loop continues only after an element [a terminal item ends the task]', new_ev[0][0] == 'N'))
+                if new_ev[0][0] == 'N':
+                    out.append(('element forwarded exactly once', sigs() == [('on_next', (new_ev[0][1],))]))
             return out
 
         def havoc(ctx):
@@ -380,20 +536,17 @@ def _aio_next(pkg):
         inner = LoopSpec(inv, None, havoc=havoc)
         inner.nonterminating = True
         E.loop_specs[(FN, 1)] = inner
-        rounds = [0]
 
         def on_suspend(E_, what):
-            rounds[0] += 1
             if what[0] == 'queue.get':
                 E_.throw('CancelledError')
             return None
         E.suspend_hook = on_suspend
-        outer = LoopSpec(lambda ctx: [], None)
-        outer.nonterminating = True
         try:
             E.await_value(tasks[0][1])
         except PyExc as e:
             E.cover('cancelled-waiting-for-credit')
+            E.prove('aio_next:only_cancellation_escapes_the_sender_task', e.value.cls.name == 'CancelledError')
             ctx = E.path.ghost.get('loops', {}).get((FN, 1))
             if ctx is not None:
                 E.prove('aio_next:events_forwarded_for_one_credit_bounded_by_it', I(ctx.k) <= I(n))
@@ -402,6 +555,18 @@ def _aio_next(pkg):
         ctx = E.path.ghost.get('loops', {}).get((FN, 1))
         if ctx is not None:
             E.prove('aio_next:events_forwarded_for_one_credit_bounded_by_it', I(ctx.k) <= I(n))
+        # the task ended on its own: in an arbitrary iteration (st['e0'], st['c0'] mark its start) a terminal item was taken
+        new_ev = events[st['e0']:] if 'e0' in st else events
+        E.prove('aio_next:the_task_ends_only_on_a_terminal_item', len(new_ev) == 1 and new_ev[0][0] != 'N')
+        if len(new_ev) == 1 and new_ev[0][0] != 'N':
+            kind, ex = new_ev[0]
+            got = sigs()
+            if kind == 'C':
+                E.prove('aio_next:completion_preserved[exactly on_completed, nothing else]', got == [('on_completed', ())])
+            elif kind == 'E':
+                E.prove('aio_next:error_notification_preserved[exactly on_error with that exception]', got == [('on_error', (ex,))])
+            else:
+                E.prove('aio_next:a_failing_source_is_reported_as_that_error[exactly once]', got == [('on_error', (ex,))])
     return run
 
 
@@ -556,9 +721,16 @@ for _pkg in PKGS:
             assumptions=RXA)(_rx_subscriber(_pkg))
     harness('c20.%s.dispose' % _pkg, ['C20', 'C09'], functions=[_d + 'from_rsocket_publisher.py::from_rsocket_publisher', _d + 'from_rsocket_publisher.py::_aio_sub'],
             assumptions=RXA + ['asyncio: a cancelled task gets CancelledError at its await'])(_dispose(_pkg))
+    harness('c20.%s.subscribe_failure' % _pkg, ['C20', 'C12'], functions=[_d + 'from_rsocket_publisher.py::_aio_sub'],
+            assumptions=RXA + ['loop.call_soon(cb, *args) runs cb(*args) later, once'])(_subscribe_failure(_pkg))
     harness('c20.%s.trigger_next_request_n' % _pkg, ['C20', 'C06'], functions=[_d + 'from_rsocket_publisher.py::_trigger_next_request_n'],
             assumptions=RXA)(_trigger(_pkg))
     harness('c20.%s.backpressure_publisher' % _pkg, ['C20', 'C06'], functions=[_d + 'back_pressure_publisher.py::InternalBackPressurePublisher.' + m for m in
             ('__init__', 'subscribe', 'request', 'cancel')] + [_d + 'subscriber_adapter.py::SubscriberAdapter.on_next'], assumptions=RXA)(_publisher(_pkg))
+    harness('c20.%s.plain_observable_publisher' % _pkg, ['C20', 'C06'], functions=[_d + 'back_pressure_publisher.py::observable_to_publisher',
+            _d + 'back_pressure_publisher.py::BackPressurePublisher.__init__', _d + 'back_pressure_publisher.py::InternalBackPressurePublisher.subscribe',
+            _d + 'back_pressure_publisher.py::from_async_event_generator'], assumptions=RXA)(_plain_publisher(_pkg))
     harness('c20.%s.aio_next' % _pkg, ['C20', 'C06'], functions=[_d + 'back_pressure_publisher.py::from_async_event_iterator'],
             assumptions=RXA + ['async_range through its contract (c06.async_range)'])(_aio_next(_pkg))
+    harness('c20.%s.aio_next.async_generator' % _pkg, ['C20', 'C06'], functions=[_d + 'back_pressure_publisher.py::observable_from_async_generator'],
+            assumptions=RXA + ['async_range through its contract (c06.async_range)'])(_aio_next(_pkg, 'observable_from_async_generator'))
